@@ -22,6 +22,7 @@ LEVEL = "exploration"
 TECHNIQUE = "deterministic simulation: seeded interleavings of global-RNG users / re-seeding library calls before the probe, across interpreter processes with simulator-chosen PYTHONHASHSEED; golden-run digest equality + filter reference model"
 RUNS = {"quick": 450, "thorough": 48000}
 HASHSEED_SLOTS = {"quick": 3, "thorough": 12}
+OPTIMIZE_SLOTS = {"quick": [2], "thorough": [2, 5, 8, 11]}  # hash-seed slots whose interpreter runs under `python -O` (asserts stripped)
 FRESH = {"quick": 8, "thorough": 32}
 JOB_TIMEOUT = 600.0
 
